@@ -422,6 +422,11 @@ func (p *proxyConn) writeErrorResponse(req *http.Request, err error) error {
 	res := maybeConnectErrorResponse(err)
 	if res == nil {
 		res = p.errorResponse(req, err)
+	} else {
+		// The response was built for the CONNECT request issued by the transport,
+		// it answers the client's request: framing (HEAD, protocol version,
+		// Connection: close) must follow that one.
+		res.Request = req
 	}
 	// The challenge of the proxy's own 407 is addressed to the client,
 	// it must survive the hop-by-hop cleanup done by the response modifiers.
